@@ -203,6 +203,32 @@ var c14Specials = []c14Special{
 		Plants: []string{"c14keep(x, y)", "c14keep(c14a, c14b)", "_ = c14keep(1, 2)", "c14keep(y, x)", "c14sink(c14keep(x, c14f()))"},
 	},
 	{
+		// The captured name is reproduced, under an import that the change
+		// only mentions: in one file the name is the package, in another
+		// a parameter or a local variable of that name. What the name was
+		// in a file processed before must not decide about this file's
+		// imports.
+		Label: "captured-name-under-import",
+		Text:  "@@\nvar x identifier\n@@\n import \"log\"\n\n-x.Fatalln(...)\n+x.Fatal(...)\n",
+		Plants: []string{
+			"_ = func(log c14logger) { log.Fatalln(\"a\") }",
+			"log.Fatalln(\"b\", 1)",
+			"{\n\tlog := c14logger{}\n\tlog.Fatalln(2)\n}",
+			"c14lg.Fatalln()",
+			"log.Fatalln(log.Prefix())",
+		},
+		Host: "package c14logs\n\nimport \"log\"\n\ntype c14logger struct{}\n\nfunc (c14logger) Fatalln(...interface{}) {}\nfunc (c14logger) Fatal(...interface{})   {}\n\nvar c14lg c14logger\n\nfunc c14first(n int) int {\n\tn--\n\treturn n\n}\n\nfunc c14other(n int) int {\n\tn++\n\treturn n\n}\n",
+	},
+	{
+		// The change is for one package only; a directory regularly holds
+		// files of two (foo and foo_test), and other drawn files are of
+		// other packages still.
+		Label:  "package-guard",
+		Text:   "@@\nvar x expression\n@@\n package c14guard_test\n\n-c14pg(x)\n+c14pg(x, nil)\n",
+		Plants: []string{"c14pg(1)", "_ = c14pg(c14v)", "c14sink(c14pg(\"s\"))"},
+		Host:   "package c14guard_test\n\nfunc c14first(n int) int {\n\tn--\n\treturn n\n}\n\nfunc c14other(n int) int {\n\tn++\n\treturn n\n}\n",
+	},
+	{
 		// Not idempotent: applying the change twice shows in the bytes.
 		Label:  "bump",
 		Text:   "@@\nvar x expression\n@@\n-c14bump(x)\n+c14bump(x + 1)\n",
@@ -517,6 +543,21 @@ func c14DrawCase(rt *rapid.T) *c14Case {
 					ch.Hosts = append(ch.Hosts, c14Plant(rt, sp.Host, sp, fmt.Sprintf("modPlant%d", k)))
 				}
 				changes = append([]*c14Change{ch}, changes...)
+			}
+		}
+	}
+	// Package scenario (cli): every change of the run is restricted to one
+	// package, and the directories hold files of that package next to files
+	// of others (as foo and foo_test do).
+	if cs.Kind == "cli" && !moduleScenario && rapid.IntRange(0, 5).Draw(rt, "packageScenario") == 0 {
+		for i := range c14Specials {
+			if sp := &c14Specials[i]; sp.Label == "package-guard" {
+				ch := &c14Change{Label: "special:" + sp.Label, Text: sp.Text, Special: sp}
+				for k := 0; k < 2; k++ {
+					ch.Hosts = append(ch.Hosts, c14Plant(rt, sp.Host, sp, fmt.Sprintf("pkgPlant%d", k)))
+				}
+				ch.Hosts = append(ch.Hosts, strings.Replace(ch.Hosts[0], "package c14guard_test", "package c14guard", 1))
+				changes = []*c14Change{ch}
 			}
 		}
 	}
